@@ -71,6 +71,9 @@ func NewHTTPReverseProxy(option HTTPReverseProxyOptions, vhostRouter *Routers) *
 			r.Out.Header["X-Forwarded-For"] = r.In.Header["X-Forwarded-For"]
 			r.SetXForwarded()
 			req := r.Out
+			// Nothing here interprets query parameters: forward the query string as received, including
+			// parameters the standard library considers unparsable (e.g. ';' separators) and would drop.
+			req.URL.RawQuery = r.In.URL.RawQuery
 			req.URL.Scheme = "http"
 			reqRouteInfo := req.Context().Value(RouteInfoKey).(*RequestRouteInfo)
 			originalHost, _ := httppkg.CanonicalHost(reqRouteInfo.Host)
